@@ -49,9 +49,9 @@ func VP_C20_extent_leaf() {
 		vp.Assert(len(leaf.extents) == n, "as many extents as eh_entries")
 		for i := 0; i < n && i < len(leaf.extents); i++ {
 			fb, ln, st := c20RefLeaf(b, i)
-			vp.Assert(leaf.extents[i].fileBlock == fb, "ee_block")
-			vp.Assert(leaf.extents[i].count == ln, "ee_len")
-			vp.Assert(leaf.extents[i].startingBlock == st, "ee_start = ee_start_hi<<32 | ee_start_lo")
+			x := leaf.extents[i]
+			vp.Assert(c20b2i(x.fileBlock == fb)&c20b2i(x.count == ln)&c20b2i(x.startingBlock == st) == 1,
+				"ee_block, ee_len, ee_start = ee_start_hi<<32 | ee_start_lo")
 		}
 		got, err := leaf.blocks(nil)
 		vp.Assert(err == nil, "blocks() of a leaf")
@@ -93,8 +93,8 @@ func VP_C20_extent_index() {
 		vp.Assert(len(node.children) == n, "as many children as eh_entries")
 		for i := 0; i < n && i < len(node.children); i++ {
 			fb, child := c20RefIdx(b, i)
-			vp.Assert(node.children[i].fileBlock == fb, "ei_block")
-			vp.Assert(node.children[i].diskBlock == child, "ei_leaf = ei_leaf_hi<<32 | ei_leaf_lo")
+			vp.Assert(c20b2i(node.children[i].fileBlock == fb)&c20b2i(node.children[i].diskBlock == child) == 1,
+				"ei_block, ei_leaf = ei_leaf_hi<<32 | ei_leaf_lo")
 		}
 	}
 	vp.Cover("index roots with 1..4 children decoded")
@@ -153,9 +153,9 @@ func c20Tree(bs uint32, nchild int, maxLeaf int) {
 					ln := uint16(dev.ByteAt(o+4)) | uint16(dev.ByteAt(o+5))<<8
 					st := uint64(dev.ByteAt(o+8)) | uint64(dev.ByteAt(o+9))<<8 | uint64(dev.ByteAt(o+10))<<16 | uint64(dev.ByteAt(o+11))<<24 |
 						uint64(dev.ByteAt(o+6))<<32 | uint64(dev.ByteAt(o+7))<<40
-					vp.Assert(got[k].fileBlock == fb, "tree walk: ee_block of the k-th extent in tree order")
-					vp.Assert(got[k].count == ln, "tree walk: ee_len")
-					vp.Assert(got[k].startingBlock == st, "tree walk: ee_start")
+					x := got[k]
+					vp.Assert(c20b2i(x.fileBlock == fb)&c20b2i(x.count == ln)&c20b2i(x.startingBlock == st) == 1,
+						"tree walk: the k-th extent in tree order is the on-disk (ee_block, ee_len, ee_start)")
 				}
 				k++
 			}
